@@ -671,6 +671,10 @@ func palindromeState(f *ssa.Function) (int, string) {
 				}
 			}
 			if !empty {
+				// a loop comparing mirrored positions element by element?
+				if a.Cond.String() != "true" && strings.Contains(a.Cond.String(), "omplement") || loopCompares(f) {
+					return mirrorLoopState(f)
+				}
 				return broken, "a path answers " + a.T.Name + " under " + short(a.Cond.String()) + " without comparing the sequence with its reverse complement"
 			}
 		default:
@@ -731,4 +735,15 @@ func readGlobalRuneLists(w *World, gt *Term) (map[rune][]rune, []string) {
 		return nil, []string{"table written at run time"}
 	}
 	return out, nil
+}
+
+// loopCompares: does f compare elements against a complement inside a loop?
+func loopCompares(f *ssa.Function) bool {
+	found := false
+	eachInstr(f, func(i ssa.Instruction) {
+		if ci, ok := i.(ssa.CallInstruction); ok && strings.Contains(calleeName(ci), "omplement") && inLoop(ci.Block()) {
+			found = true
+		}
+	})
+	return found
 }
